@@ -1,6 +1,7 @@
 import WnVerif.Drv.Graph
 import WnVerif.Drv.Morphy
 import WnVerif.Drv.Store
+import WnVerif.Drv.Validate
 open Lean WnVerif.Drv
 
 def dispatch (j : Json) : Json :=
@@ -10,6 +11,7 @@ def dispatch (j : Json) : Json :=
   | "morphy" => opMorphy j
   | "store" => opStore j
   | "glob" => opGlob j
+  | "validate" => opValidate j
   | "ping" => jObj [("pong", jNat 1)]
   | op => jObj [("bad-op", jStr op)]
 
